@@ -144,6 +144,7 @@ def check_pseudo(it, data, here, labels, consts, rng, out, nregs=6, base=0):
         return ['pseudo-instruction emitted %d instructions' % len(parts)], info
     problems = []
     taken = set()
+    labels = dict(consts, **labels) if any('t' in o and o['t'] in consts for o in ops if isinstance(o, dict)) else labels
     opregs = [P.regno(o, consts) for o in ops if 'r' in o or 'cr' in o]
     k0 = rng.randrange(len(PAIRS))
     for k, rf in enumerate(iss.regfiles(rng, nregs)):
